@@ -74,6 +74,46 @@ type Op struct {
 	Expired   []int  `json:"expired,omitempty"`
 	Tx        int    `json:"tx,omitempty"`
 	Oob       bool   `json:"oob,omitempty"`
+	Reqs      []Req  `json:"reqs,omitempty"` // K=burst: events handed to the scheduler while a run is in flight
+}
+
+// Req is one event of a burst: a head change (Reset), a remote submission
+// (Txs; Dirty is filled in with what the pool reported dirty), or a promotion
+// request for Dirty.
+type Req struct {
+	Reset bool  `json:"reset,omitempty"`
+	Old   int   `json:"old"`
+	New   int   `json:"new"`
+	Dirty []int `json:"dirty,omitempty"`
+	Txs   []int `json:"txs,omitempty"`
+	Add   bool  `json:"add,omitempty"`
+}
+
+// merged: what the scheduler must make of a burst (independently of the Coq
+// model): old head of the first reset, new head of the LAST one, union of the
+// dirty sets - as a plain reorg op.
+func (op *Op) merged() *Op {
+	m := &Op{K: "reorg", Old: -1, New: -1, HaveDirty: true}
+	seen := map[int]bool{}
+	for _, r := range op.Reqs {
+		if r.Reset {
+			if !m.Reset {
+				m.Reset, m.Old = true, r.Old
+			}
+			m.New = r.New
+			continue
+		}
+		for _, a := range r.Dirty {
+			if !seen[a] {
+				seen[a] = true
+				m.Dirty = append(m.Dirty, a)
+			}
+		}
+		if r.Add {
+			m.Txs = append(m.Txs, r.Txs...)
+		}
+	}
+	return m
 }
 type Case struct {
 	What    string  `json:"what,omitempty"`
@@ -367,6 +407,36 @@ func (e *env) exec(op *Op) (*Obs, *core.VerifSnapshot, []string) {
 			}
 			e.pool.VerifReorg(op.Reset, hdr(op.Old), hdr(op.New), d, op.HaveDirty)
 		}
+	case "burst":
+		reqs := make([]core.VerifReq, len(op.Reqs))
+		for i, r := range op.Reqs {
+			switch {
+			case r.Reset:
+				reqs[i] = core.VerifReq{Reset: true, Old: hdr(r.Old), New: hdr(r.New)}
+			case r.Add:
+				reqs[i] = core.VerifReq{Txs: pick(r.Txs)}
+				if reqs[i].Txs == nil {
+					reqs[i].Txs = []*types.Transaction{}
+				}
+			default:
+				var d []common.Address
+				for _, a := range r.Dirty {
+					d = append(d, e.addrs[a])
+				}
+				reqs[i] = core.VerifReq{Dirty: d}
+			}
+		}
+		_, dirties := e.pool.VerifCoalesced(reqs, func(i int) { e.chain.setHead(e.blocks[op.Reqs[i].New]) })
+		for i, r := range op.Reqs {
+			if r.Add {
+				var d []int
+				for _, a := range dirties[i] {
+					d = append(d, e.acctIdx(a))
+				}
+				sort.Ints(d)
+				op.Reqs[i].Dirty = d
+			}
+		}
 	case "price":
 		e.pool.SetGasPrice(new(big.Int).SetUint64(op.Price))
 	case "evict":
@@ -458,6 +528,9 @@ func (e *env) exec(op *Op) (*Obs, *core.VerifSnapshot, []string) {
 // branch does not contain.  ok=false when the pool legitimately skips the walk
 // (no old head, direct child, deep jump, unknown blocks, state unavailable).
 func (e *env) expectReinject(op *Op) ([]int, bool) {
+	if op.K == "burst" {
+		op = op.merged()
+	}
 	if op.K != "reorg" || !op.Reset || op.Old < 0 || !e.c.Blocks[op.New].StateOK {
 		return nil, false
 	}
@@ -515,6 +588,25 @@ func (e *env) expectReinject(op *Op) ([]int, bool) {
 	return out, true
 }
 
+// resetTakesEffect: does a reset old->new move the pool onto the state of new?
+// Re-derived from the chain the stub serves: the state must be available, and the
+// walk between the two heads - when the pool has to make it - must not run into
+// a block the chain does not know.
+func (e *env) resetTakesEffect(old, nw int) bool {
+	if !e.c.Blocks[nw].StateOK {
+		return false
+	}
+	if old < 0 || e.blocks[old].Hash() == e.blocks[nw].ParentHash() {
+		return true
+	}
+	on, nn := e.blocks[old].NumberU64(), e.blocks[nw].NumberU64()
+	if (on > nn && on-nn > 64) || (nn > on && nn-on > 64) {
+		return true
+	}
+	_, ok := e.expectReinject(&Op{K: "reorg", Reset: true, Old: old, New: nw})
+	return ok
+}
+
 // ---- property oracle --------------------------------------------------------
 
 type oracle struct {
@@ -551,6 +643,25 @@ func (o *oracle) nonLocalOver(s *core.VerifSnapshot, pending bool, lim uint64) b
 func (o *oracle) check(op *Op, ob *Obs, s *core.VerifSnapshot, api []string) (string, string) {
 	e := o.e
 	defer func() { o.prev = s }()
+	if op.K == "burst" {
+		op = op.merged()
+	}
+	// 00. after every requested reset is done, the pool works on the LAST head delivered (a burst of
+	// head changes that the scheduler coalesced counts as delivered in full): account nonces, balances
+	// and the gas limit the pool validates against are those of that head.  All clauses below are
+	// stated against the pool's state, so with this one they are stated against the chain's head.
+	if op.K == "reorg" && op.Reset && e.resetTakesEffect(op.Old, op.New) {
+		hb := e.c.Blocks[op.New]
+		if s.MaxGas != hb.GasLimit {
+			return "pool-on-stale-head", fmt.Sprintf("after the reset to block %d the pool validates against gas limit %d, the head has %d", op.New, s.MaxGas, hb.GasLimit)
+		}
+		for i, a := range s.Accounts {
+			if a.StateNonce != hb.State[i].Nonce || a.Balance.Cmp(new(big.Int).SetUint64(hb.State[i].Balance)) != 0 {
+				return "pool-on-stale-head", fmt.Sprintf("after the reset to block %d (the last head delivered) the pool sees account %d at nonce %d balance %v, the head has nonce %d balance %d",
+					op.New, i, a.StateNonce, a.Balance, hb.State[i].Nonce, hb.State[i].Balance)
+			}
+		}
+	}
 	if len(api) > 0 {
 		return "pending-api-differs-from-pending-view", api[0]
 	}
@@ -818,6 +929,10 @@ func (o *oracle) check(op *Op, ob *Obs, s *core.VerifSnapshot, api []string) (st
 			t := e.c.Txs[id]
 			seen[[2]uint64{uint64(t.From), t.Nonce}]++
 		}
+		for _, id := range op.Txs { // submissions made during a burst compete as well
+			t := e.c.Txs[id]
+			seen[[2]uint64{uint64(t.From), t.Nonce}] += 2
+		}
 		for _, id := range ids {
 			t := e.c.Txs[id]
 			if !t.Sig || t.Big || t.From >= len(s.Accounts) || seen[[2]uint64{uint64(t.From), t.Nonce}] > 1 {
@@ -973,6 +1088,30 @@ func opCoq(c *Case, op *Op, ord []int) string {
 			d = "(Some " + nl(op.Dirty) + ")"
 		}
 		return fmt.Sprintf("OReorg %s %s %s", rs, d, nl(ord))
+	case "burst":
+		// the submissions happen under the lock the harness holds; then the run that was in flight
+		// (nothing to promote) gets the lock; then the run for everything the scheduler merged
+		var steps, reqs []string
+		reqs = append(reqs, "RPromote []")
+		for _, r := range op.Reqs {
+			switch {
+			case r.Reset:
+				old := "None"
+				if r.Old >= 0 {
+					old = "(Some " + hdrCoq(&c.Blocks[r.Old]) + ")"
+				}
+				reqs = append(reqs, fmt.Sprintf("RReset %s %s", old, hdrCoq(&c.Blocks[r.New])))
+			case r.Add:
+				steps = append(steps, fmt.Sprintf("OAddLocked %s false", tl(r.Txs)))
+				reqs = append(reqs, "RPromote "+nl(r.Dirty))
+			default:
+				reqs = append(reqs, "RPromote "+nl(r.Dirty))
+			}
+		}
+		rl := vf.List(reqs)
+		steps = append(steps, fmt.Sprintf("OReorg None (Some []) %s", nl(ord)))
+		steps = append(steps, fmt.Sprintf("OReorg (s_reset (merge_all %s)) (s_dirty (merge_all %s)) %s", rl, rl, nl(ord)))
+		return strings.Join(steps, "; ")
 	case "price":
 		return fmt.Sprintf("OSetPrice %d", op.Price)
 	case "evict":
@@ -1015,7 +1154,7 @@ func caseCoq(c *Case, obs []*Obs) string {
 		if i > 0 {
 			sb.WriteString(";\n")
 		}
-		sb.WriteString("  (" + opCoq(c, &c.Ops[i], obs[i].Ord) + ", " + obsCoq(obs[i]) + ")")
+		sb.WriteString("  ([" + opCoq(c, &c.Ops[i], obs[i].Ord) + "], " + obsCoq(obs[i]) + ")")
 	}
 	sb.WriteString("])")
 	return sb.String()
@@ -1030,6 +1169,7 @@ type gen struct {
 	txKey map[string]int
 	head  int // current head block
 	last  *core.VerifSnapshot
+	forky bool // newBlock: prefer siblings of the head and branches from its ancestors
 }
 
 func (g *gen) mkTx(from int, sig bool, nonce, price, gas, value uint64, data int) int {
@@ -1123,6 +1263,9 @@ func (g *gen) newBlock() (int, bool) {
 	c := g.c
 	parent := g.head
 	kind := r.Intn(100)
+	if g.forky && kind < 90 {
+		kind = 30 + kind*2/3 // 1/3 extend, 2/3 sibling or lower branch
+	}
 	switch {
 	case kind < 62: // extend the head
 	case kind < 90: // fork from an ancestor (1-3 back) or a sibling
@@ -1203,6 +1346,68 @@ func (g *gen) newBlock() (int, bool) {
 	c.Blocks = append(c.Blocks, b)
 	g.e.ensureBlocks()
 	return b.ID, !r.Chance(4) // registered with the chain?
+}
+
+func (g *gen) registered(id int, more []Op) bool {
+	if id == g.c.Genesis {
+		return true
+	}
+	for _, op := range append(append([]Op{}, g.c.Ops...), more...) {
+		if op.K == "block" && op.Block == id {
+			return true
+		}
+	}
+	return false
+}
+
+// burstOps: 2-4 events reach the scheduler while a run is in flight and none is
+// awaited: head changes to new blocks (children, same-height siblings, branches
+// ending lower), roll-backs to an ancestor (SetHead), remote submissions and
+// promotion requests in between.  The scheduler has to merge them into one run.
+func (g *gen) burstOps() []Op {
+	r, c := g.r, g.c
+	var ops []Op
+	var reqs []Req
+	n := 2 + r.Intn(3)
+	resets := 0
+	for i := 0; i < n; i++ {
+		x := r.Intn(100)
+		if i == n-1 && resets < 2 && r.Chance(80) {
+			x = 0
+		}
+		switch {
+		case x < 68:
+			cur := g.head
+			nb := -1
+			if r.Chance(22) { // roll back to an ancestor the chain still serves
+				a := c.Blocks[cur].Parent
+				if a >= 0 && r.Chance(40) && c.Blocks[a].Parent >= 0 {
+					a = c.Blocks[a].Parent
+				}
+				if a >= 0 && g.registered(a, ops) {
+					nb = a
+				}
+			}
+			if nb < 0 {
+				g.forky = true
+				nb, _ = g.newBlock()
+				g.forky = false
+				ops = append(ops, Op{K: "block", Block: nb, Old: -1})
+			}
+			reqs = append(reqs, Req{Reset: true, Old: cur, New: nb})
+			g.head = nb
+			resets++
+		case x < 86:
+			q := Req{Add: true}
+			for k := 1 + r.Intn(3); k > 0; k-- {
+				q.Txs = append(q.Txs, g.randTx())
+			}
+			reqs = append(reqs, q)
+		default:
+			reqs = append(reqs, Req{Dirty: subset(r, c.NAccts, 50)})
+		}
+	}
+	return append(ops, Op{K: "burst", Old: -1, Reqs: reqs})
 }
 
 // heapScenario: an account queues 3-5 gapped transactions submitted in shuffled
@@ -1406,6 +1611,8 @@ func (g *gen) nextOps() []Op {
 		return []Op{op}
 	case x < 52:
 		return []Op{{K: "reorg", Old: -1, Dirty: subset(r, c.NAccts, 60), HaveDirty: !r.Chance(20)}}
+	case x < 58:
+		return g.burstOps()
 	case x < 76:
 		nb, reg := g.newBlock()
 		var ops []Op
@@ -1557,7 +1764,7 @@ func generate(r *vf.Rng) (*Case, runResult) {
 			ob, s, api := e.exec(&c.Ops[len(c.Ops)-1])
 			res.obs = append(res.obs, ob)
 			g.last = s
-			what, detail := o.check(&op, ob, s, api)
+			what, detail := o.check(&c.Ops[len(c.Ops)-1], ob, s, api)
 			if what != "" && (res.what == "" || (res.what == KnownGap && what != KnownGap)) {
 				res.what, res.where, res.detail = what, len(c.Ops)-1, detail
 			}
@@ -1596,6 +1803,30 @@ func classify(res *vf.Result, c *Case, rr runResult) {
 			}
 		}
 		res.Count("op_" + k)
+		if k == "burst" {
+			var nums []uint64
+			adds := false
+			for _, q := range op.Reqs {
+				if q.Reset {
+					nums = append(nums, c.Blocks[q.New].Num)
+				}
+				adds = adds || q.Add
+			}
+			if len(nums) >= 2 {
+				res.Count("burst_merged_resets")
+				switch l, p := nums[len(nums)-1], nums[len(nums)-2]; {
+				case l == p:
+					res.Count("burst_last_head_same_height")
+				case l < p:
+					res.Count("burst_last_head_lower")
+				default:
+					res.Count("burst_last_head_higher")
+				}
+			}
+			if adds {
+				res.Count("burst_with_submissions")
+			}
+		}
 		ob := rr.obs[i]
 		if ob.OutKind == 1 {
 			for j, e := range ob.Errs {
@@ -1625,7 +1856,7 @@ func classify(res *vf.Result, c *Case, rr runResult) {
 				switch op.K {
 				case "add", "addlocked":
 					res.Count("drop_on_add(discard/limits)")
-				case "reorg":
+				case "reorg", "burst":
 					res.Count("drop_on_reorg")
 				case "evict":
 					res.Count("drop_on_evict")
@@ -1688,7 +1919,7 @@ func doGen(seed uint64, n int, outDir, corpusDir string) {
 	res.Cases = count
 	res.Distinct = len(distinct)
 	res.Extra["gap_repair_present_in_tree"] = gapFixed
-	res.Rule = "one case = one operation history (4-95 critical sections) on a fresh pool with 2-5 accounts, random limits (75% tiny: 1-8 slots) and a scripted chain; ops: sync/async-half submissions of 1-4 txs (next nonce, gapped, replacing around the price-bump threshold, stale, unaffordable, over gas limit, oversized, unsigned, resubmitted; local or remote), runReorg with arbitrary dirty sets, new blocks extending or forking the chain (mined pool txs, txs of the abandoned branch, foreign txs; balance/nonce jumps; deep and unknown heads; state unavailable) followed by a reset, re-pricing, lifetime eviction, single removals, Pending(); after every op the pool's views (pending/queued ids per account, pool nonce, locals, lookup, heartbeat order, gas price, returned errors) are compared with the model inside Coq; non-trivial = the pool was non-empty at some point; distinct by full history"
+	res.Rule = "one case = one operation history (4-95 critical sections) on a fresh pool with 2-5 accounts, random limits (75% tiny: 1-8 slots) and a scripted chain; ops: sync/async-half submissions of 1-4 txs (next nonce, gapped, replacing around the price-bump threshold, stale, unaffordable, over gas limit, oversized, unsigned, resubmitted; local or remote), runReorg with arbitrary dirty sets, new blocks extending or forking the chain (mined pool txs, txs of the abandoned branch, foreign txs; balance/nonce jumps; deep and unknown heads; state unavailable) followed by a reset, bursts of 2-4 events (head changes to children / same-height siblings / lower branches / roll-backs to an ancestor, remote submissions, promotion requests) handed to the real scheduler while a run is in flight so that it must merge them - after which the pool must be on the LAST head delivered -, re-pricing, lifetime eviction, single removals, Pending(); after every op the pool's views (pending/queued ids per account, pool nonce, locals, lookup, heartbeat order, gas price, returned errors) are compared with the model inside Coq; non-trivial = the pool was non-empty at some point; distinct by full history"
 	res.Write(filepath.Join(outDir, "result.json"))
 }
 
